@@ -73,7 +73,6 @@ impl<T> Clone for Sender<T> {
 #[verifier::external_body] pub struct Poll { x: u8 }
 #[verifier::external_body] pub struct MioUdpSocket { x: u8 }
 #[verifier::external_body] pub struct ScopedIp { x: u8 }
-#[verifier::external_body] pub struct ResolvedService { x: u8 }
 #[verifier::external_body] pub struct DaemonOption { x: u8 }
 #[verifier::external_body] pub struct IfPredicate { x: u8 }
 
